@@ -1,7 +1,7 @@
 """C10 — provenance is exact and independent of what was already memoized (structural part).
 
-Decides: propagation on every result path (R1); push/pop typestate (R2); what propagation writes
-(R3); the frame's own reference seeds the dependency set (R4); resource handles are appended (R5).
+Decides: propagation on every result path, once, and into a record that is the invocation's own while it is
+computed (R1); push/pop typestate (R2); what propagation writes (R3); the frame's own reference seeds the dependency set (R4); resource handles are appended (R5).
 
 "Propagation" is an effect, not a spelling: a call of propagate_dependencies(caller, result) or the three
 statements it consists of written out in place (append the callee's reference to the caller's invocations, add
@@ -153,6 +153,150 @@ def feeding_calls(fa, expr, at, name, _seen=None):
     return out
 
 
+# =================================================================================================
+# walks whose branch decisions agree with each other
+# =================================================================================================
+
+def _sig(fa, t, at):
+    """By which definitions the names of the test `t` are bound at node `at`."""
+    return frozenset((v, frozenset(d.node for d in fa.df.reaching(at, v))) for v in {x.id for x in ast.walk(t) if isinstance(x, ast.Name)})
+
+
+def _opened(fa, t, at):
+    """A boolean local opened up (`missing = k not in d` ... `if missing:`), like FA.conditions does."""
+    if isinstance(t, ast.Name):
+        try:
+            e = fa.expand(t, at)
+        except AnalysisError:
+            return t
+        if isinstance(e, (ast.Compare, ast.BoolOp, ast.UnaryOp)):
+            for x_ in ast.walk(e):
+                x_._no_expand = True
+            return e
+    return t
+
+
+def _known(fa, t, at, facts, sig=None):
+    """Three-valued reading of the test `t` (at node `at`) under the branch facts {literal text: (polarity, sig)}
+    established earlier on the walk; a fact counts only when the names of its test were bound by the same definitions
+    as they are here.  True / False / None (not decided by the facts)."""
+    sig = _sig(fa, t, at) if sig is None else sig
+    t = _opened(fa, t, at)
+    if isinstance(t, ast.UnaryOp) and isinstance(t.op, ast.Not):
+        v = _known(fa, t.operand, at, facts, sig if getattr(t, "_no_expand", False) else None)
+        return None if v is None else not v
+    if isinstance(t, ast.BoolOp):
+        vs = [_known(fa, v, at, facts, sig if getattr(t, "_no_expand", False) else None) for v in t.values]
+        dom = isinstance(t.op, ast.Or)      # one disjunct true / one conjunct false decides
+        if any(v is dom for v in vs):
+            return dom
+        return (not dom) if all(v is (not dom) for v in vs) else None
+    text, pol = fa._literal(t, at, True)
+    f = facts.get(text)
+    if f is None or f[1] != sig:
+        return None
+    return f[0] == pol
+
+
+def _facts_of(fa, t, at, positive, sig=None):
+    """[(literal text, polarity, sig)] established by taking the test `t` with the given polarity (a conjunction
+    taken true / a disjunction taken false splits into its parts)."""
+    sig = _sig(fa, t, at) if sig is None else sig
+    t = _opened(fa, t, at)
+    sub = sig if getattr(t, "_no_expand", False) else None
+    if isinstance(t, ast.UnaryOp) and isinstance(t.op, ast.Not):
+        return _facts_of(fa, t.operand, at, not positive, sub)
+    if isinstance(t, ast.BoolOp) and ((isinstance(t.op, ast.And) and positive) or (isinstance(t.op, ast.Or) and not positive)):
+        return [f for v in t.values for f in _facts_of(fa, v, at, positive, sub)]
+    text, pol = fa._literal(t, at, positive)
+    return [(text, pol, sig)]
+
+
+def consistent_walk(fa, targets, via=None, avoid=(), cap=60000):
+    """A walk entry -> (one of `via`, when given) -> one of `targets` that never passes `avoid` and on which no branch
+    is taken against what an earlier branch of the same walk established (`if v: A` ... `if v and w: B`: B only after
+    A's branch).  Facts are forgotten at loop heads.  Returns the list of node ids, [] when there is none, or None when
+    the search was cut off (callers then decide on plain reachability)."""
+    cfg = fa.cfg
+    targets, avoid = set(targets), set(avoid)
+    via = set(via) if via is not None else None
+    start = (cfg.entry, via is None, frozenset())
+    prev = {start: None}
+    stack = [start]
+    while stack:
+        if len(prev) > cap:
+            return None
+        state = stack.pop()
+        n, after, lits = state
+        if n in avoid:
+            continue
+        if after and n in targets:
+            out = []
+            while state is not None:
+                out.append(state[0])
+                state = prev[state]
+            return out[::-1]
+        if via is not None and n in via:
+            after = True
+        nd = cfg.node(n)
+        loop_head = nd.kind == "for" or (nd.kind == "test" and isinstance(fa.pm.get(nd.ast), ast.While))
+        for (d, l) in cfg.succ[n]:
+            new = lits
+            if loop_head:
+                new = frozenset()
+            elif nd.kind == "test" and nd.ast is not None and l in ("T", "F"):
+                facts = {t: (pol, g) for (t, pol, g) in lits}
+                if _known(fa, nd.ast, n, facts) is (l != "T"):
+                    continue
+                for (t, pol, g) in _facts_of(fa, nd.ast, n, l == "T"):
+                    facts[t] = (pol, g)
+                new = frozenset((t, pol, g) for (t, (pol, g)) in facts.items())
+            nxt = (d, after, new)
+            if nxt not in prev:
+                prev[nxt] = state
+                stack.append(nxt)
+    return []
+
+
+def _compute_nodes(rl):
+    """CFG nodes at which memento_run_local computes the invocation: the call of the function body (the wrapped
+    function reached through the reference's `memento_fn`, or anything called with the reference's effective
+    arguments) and the store's `memoize` of what the frame collected."""
+    out = []
+    for c in rl.calls():
+        if not rl.nodes(c):
+            continue
+        through_fn = any(isinstance(n, ast.Attribute) and n.attr == "memento_fn" for n in ast.walk(rl.expand(c.func, rl.nodes(c)[0])))
+        with_args = any(k.arg is None and isinstance(k.value, ast.Attribute) and k.value.attr.startswith("effective_kwargs") for k in c.keywords)
+        if through_fn or with_args or A.call_attr(c) == "memoize":
+            out += rl.nodes(c)
+    return out
+
+
+def _adoptions(rl, pushed):
+    """Assignments after which the pushed frame's memento is, or shares state with, something that was not built for
+    this invocation: `<frame>.memento = <anything but a freshly constructed Memento>`, or a store into a part of
+    `<frame>.memento` of a value read from the store's answer."""
+    me = pushed + ".memento"
+    out = []
+    for st in rl.stmts(ast.Assign):
+        if not rl.nodes(st):
+            continue
+        at = rl.nodes(st)[0]
+        for t in st.targets:
+            if not isinstance(t, ast.Attribute):
+                continue
+            tt = rl.xnorm(t, at)
+            if tt == me:
+                lv = origins(rl, st.value, at)
+                fresh = bool(lv) and all(isinstance(x, ast.Call) and isinstance(x.func, ast.Name) and x.func.id == "Memento" for (x, _n) in lv)
+                if not fresh:
+                    out.append(st)
+            elif tt.startswith(me + ".") and any(d.startswith("call:get_memento") for d in rl.deps(st.value, at)):
+                out.append(st)
+    return out
+
+
 def _escapes(fa, starts, sites, extra_removed, edge_ok, targets, include_start=True):
     """Can a path from `starts` reach one of `targets` without performing the whole propagation (every one of its
     parts at some site) and without passing `extra_removed`?  Returns the part index that can be skipped, or None."""
@@ -197,6 +341,19 @@ def _r1_batch(ck, R1):
               "every iteration propagates provenance (served hit) or runs memento_run_local" if esc is None else
               "an iteration can finish without recording the sub-call in the calling frame: provenance depends on what was memoized "
               "(witness %s)" % wit, br.where(loop_ast))
+        # ... and records it once: memento_run_local propagates by itself, so after a propagation written here the same
+        # iteration neither runs the element nor propagates again (the caller would list the sub-call twice)
+        recs = {i for s in sites for i in s.part(0)}
+        again = None
+        for i in sorted(recs):
+            r = br.cfg.reach([i], removed=set(heads), include_start=False)
+            if (recs | run_nodes) & r:
+                again = i
+        ck.paths_enumerated += 1
+        ck.ob(R1, br.key(loop_ast, "iteration-records-once"), again is None,
+              "an iteration records its sub-call in the calling frame once" if again is None else
+              "after propagating the stored memento into the calling frame the same iteration can propagate again / run memento_run_local "
+              "(which propagates by itself): the caller lists this sub-call twice when it was memoized beforehand", br.where(loop_ast))
     for s in sites:
         okc = _is_frame_memento(br, s.caller, s.at) and "call:get_calling_frame" in br.deps(s.caller, s.at)
         okr = False
@@ -327,8 +484,32 @@ def _r1_run_local(ck, R1):
            and stored(s.value, rl.nodes(s)[0]) and (sc.with_stmt is None or rl.inside(s, sc.with_stmt))]
     for r in served:
         oks = bool(asg) and all(rl.cfg.must_pass(rl.nodes_all(asg), i) for i in rl.nodes(r))
+        if asg and not oks:
+            # the replacement and the return may sit under two tests of the same condition
+            oks = consistent_walk(rl, rl.nodes(r), avoid=rl.nodes_all(asg)) == []
         ck.ob(R1, rl.key(None, "served-memento-replaces"), oks, "the stored memento (with its stored dependency set) is what propagates" if oks else
               "a served result propagates the fresh, empty frame memento instead of the stored one: transitive dependencies are lost", rl.where(r))
+    # ... and only then: while the invocation is (still going to be) computed, the frame's memento is the fresh record
+    # the StackFrame was built with — the body's sub-calls and resource handles are appended to the frame's memento and
+    # that memento is what gets memoized.  A path that lets the frame adopt a stored memento (or a part of one) and
+    # then runs the body / memoizes appends the recomputation's provenance to the stored record.
+    work = _compute_nodes(rl)
+    ck.need(work, "memento_run_local: no call of the function body found")
+    for st in _adoptions(rl, PUSHED):
+        hit = sorted(set(work) & rl.cfg.reach(rl.nodes(st), include_start=False))
+        ck.paths_enumerated += 1
+        wit = ""
+        if hit:
+            walk = consistent_walk(rl, work, via=rl.nodes(st))
+            if walk == []:
+                hit = []
+            else:
+                wit = rl.cfg.describe_path(walk if walk else rl.cfg.path(rl.nodes(st)[0], hit[0]) or [])
+        ck.ob(R1, rl.key(st, "adopts-only-when-served"), not hit,
+              "the stored memento becomes the frame's memento only on a path that returns the served result" if not hit else
+              "`%s` makes stored metadata the frame's memento on a path that goes on to run the function body / memoize (witness %s): "
+              "the sub-calls and resource handles of the recomputation are appended to the stored record, which then lists them twice — "
+              "the recorded provenance depends on what was memoized before" % (A.short(st, 60), wit), rl.where(st))
 
 
 # =================================================================================================
@@ -519,7 +700,8 @@ def check(ck):
     R1, R2, R3, R4, R5 = ("C10.R%d" % i for i in range(1, 6))
     ck.rule(R1, "propagation on every result path: each loop iteration of the local batch runner either propagates the "
                 "served memento into the calling frame or runs memento_run_local; memento_run_local pops and then "
-                "propagates stack_frame.memento on every exit; a served memento replaces the frame's memento first", 6)
+                "propagates stack_frame.memento on every exit; a served memento replaces the frame's memento first, and only "
+                "on a path that does not go on to run the body; an iteration that propagated does not record the element again", 8)
     ck.rule(R2, "push/pop typestate: the push is protected by the try whose finally pops; no exit without pop", 2)
     ck.rule(R3, "propagate_dependencies appends the callee invocation, adds the callee reference and merges its dependency set", 3)
     ck.rule(R4, "a new frame's memento lists itself as dependency and starts with fresh invocation/resource lists", 3)
